@@ -10,6 +10,7 @@
 #include "cpu.h"
 #include "epoch.h"
 #include "garbage_collection.h"
+#include "verif_hook.h"
 
 namespace yakushima {
 
@@ -21,32 +22,39 @@ public:
      * @return false fail.
      */
     bool gain_the_right() {
+        YK_VERIF(k_load, this, f_running, 0);
         bool expected(running_.load(std::memory_order_acquire));
         for (;;) {
             if (expected) { return false; }
+            YK_VERIF(k_cas, this, f_running, 0);
             if (running_.compare_exchange_weak(expected, true,
                                                std::memory_order_acq_rel,
                                                std::memory_order_acquire)) {
+                YK_VERIF(k_cas_ok, this, f_running, 0);
                 return true;
             }
         }
     }
 
     [[nodiscard]] Epoch get_begin_epoch() const {
+        YK_VERIF(k_load, this, f_begin_epoch, 0);
         return begin_epoch_.load(std::memory_order_acquire);
     }
 
     [[nodiscard]] garbage_collection& get_gc_info() { return gc_info_; }
 
     [[nodiscard]] bool get_running() const {
+        YK_VERIF(k_load, this, f_running, 0);
         return running_.load(std::memory_order_acquire);
     }
 
     void set_begin_epoch(const Epoch epoch) {
+        YK_VERIF(k_store, this, f_begin_epoch, epoch);
         begin_epoch_.store(epoch, std::memory_order_relaxed);
     }
 
     void set_running(const bool tf) {
+        YK_VERIF(k_store, this, f_running, tf ? 1 : 0);
         running_.store(tf, std::memory_order_relaxed);
     }
 
